@@ -158,6 +158,9 @@ func (w *Worktree) diffStagingWithWorktree(cfg *config.Config, reverse, excludeI
 	fsOpts := filesystem.Options{
 		AutoCRLF: cfg.Core.AutoCRLF == "true" || cfg.Core.AutoCRLF == "input",
 		Index:    idx,
+		// core.fileMode=false: the index side drops the executable bit
+		// (UpholdExecutableBit above), so the worktree side has to as well.
+		IgnoreExecutableBit: !cfg.Core.FileMode,
 	}
 
 	// When ignored changes are to be filtered out, hand the noder the ignore
